@@ -215,3 +215,43 @@ def parse_behaviour_text(text):
             cur.append(line)
     flush()
     return states
+
+
+def extract_tagged(text, tag):
+    """Find every printed tuple  << "tag", ... >>  (possibly spanning lines) in TLC output and
+    parse it.  Returns the list of parsed tuples."""
+    out = []
+    pat = re.compile(r'<<\s*"%s"' % re.escape(tag))
+    pos = 0
+    while True:
+        m = pat.search(text, pos)
+        if not m:
+            break
+        i = m.start()
+        depth = 0
+        j = i
+        in_str = False
+        while j < len(text):
+            c = text[j]
+            if in_str:
+                if c == "\\":
+                    j += 1
+                elif c == '"':
+                    in_str = False
+            elif c == '"':
+                in_str = True
+            elif text.startswith("<<", j):
+                depth += 1
+                j += 1
+            elif text.startswith(">>", j):
+                depth -= 1
+                j += 1
+                if depth == 0:
+                    break
+            j += 1
+        try:
+            out.append(parse_value(text[i:j + 1]))
+        except Exception:
+            pass
+        pos = j + 1
+    return out
